@@ -243,6 +243,9 @@ class ZMQEventLoop(EventLoop):
         exception. If :exc:`ExitMainLoop` is raised, exit cleanly.
         """
         with contextlib.suppress(ExitMainLoop):
+            # like SelectEventLoop: every run() begins with an idle pass, so that a callback whose exception ended
+            # the previous run() is followed by the idle callbacks before the loop sleeps again
+            self._did_something = True
             while True:
                 self._loop()
 
